@@ -329,6 +329,7 @@ package engine
 //@   ensures [C10] imports-guard: !imsOK(m.Imports, file, dmap(d)) ==> !ok
 //@   ensures [C03] recorded-match-data-is-wellformed: ok ==> wfFileMatch(dmap(d1)[boxed(global("github.com/uber-go/gopatch/internal/engine.fileMatchKey"))])
 //@   ensures [C03,C09] the-matched-file-is-recorded: ok ==> matchedFile(dmap(d1)) == file
+//@   ensures [C01,C06] a-file-matches-only-if-some-site-matched: ok ==> len(unbox(dmap(d1)[boxed(global("github.com/uber-go/gopatch/internal/engine.fileMatchKey"))], "S_engine_fileMatchData").Matches) > 0
 //@   ensures d1 != nil
 //@   at call golang.org/x/tools/go/ast/astutil.Apply set restructured = noneRestructured()
 //@   ensures [C03,C05] recorded-slots-are-current: ok ==> restructured == noneRestructured()
